@@ -51,6 +51,7 @@ DEFAULT_PROFILE = dict(
     market_types=["WIN", "WIN", "WIN", "PLACE", "OTHER_PLACE", "EACH_WAY"],
     p_txlimit=0.0,
     p_explimits=0.0,
+    p_two_clients=0.0,
     discipline=False,
     center=(60, 140),
 )
@@ -354,4 +355,13 @@ class Gen:
             cfg["transaction_limit"] = rnd.choice([0, 1, 2, 3, 5])
         for m in markets:
             m.pop("_centers", None)
-        return {"id": sid, "cfg": cfg, "markets": markets, "strategies": strategies}
+        scn = {"id": sid, "cfg": cfg, "markets": markets, "strategies": strategies}
+        if self.chance(p["p_two_clients"]):
+            scn["clients"] = [{"name": "c1", "transaction_limit": rnd.choice([None, 0, 1, 2, 3, 5])}, {"name": "c2", "transaction_limit": rnd.choice([None, 1, 3])}]
+            for s in strategies:   # part of the placements goes through the second client
+                for acts in s["script"].values():
+                    for a in acts:
+                        for b in (a["actions"] if a["op"] == "txn" else [a]):
+                            if b["op"] == "place" and rnd.random() < 0.4:
+                                b["client"] = "c2"
+        return scn
